@@ -1532,26 +1532,27 @@ Proof.
 Qed.
 
 (* rec never runs out of fuel on bodies of depth < d and returns bodies of the same depth *)
-Definition fuel_ok (rec : list item -> Z -> result) (d : nat) : Prop :=
-  forall b a, (depth b < d)%nat ->
-    match rec b a with OutOfFuel => False | Ok (_, b', _) => depth b' = depth b | _ => True end.
+Definition fuel_ok (rec : list item -> Z -> Z -> result) (d : nat) : Prop :=
+  forall b a c, (depth b < d)%nat ->
+    match rec b a c with OutOfFuel => False | Ok (_, b', _) => depth b' = depth b | _ => True end.
 
-Lemma loop_fuel rec d : fuel_ok rec d -> forall n, fuel_ok (loop rec n) d.
+Lemma loop_fuel budget rec d : fuel_ok rec d -> forall n, fuel_ok (loop budget rec n) d.
 Proof.
-  intros H. induction n as [|k IH]; intros b a Hd; cbn [loop]; [reflexivity|].
-  specialize (H b a Hd). destruct (rec b a) as [[[bs b'] d1]| | |]; cbn [bind]; auto.
+  intros H. induction n as [|k IH]; intros b a c Hd; cbn [loop]; [reflexivity|].
+  destruct (over budget (c + 1)); [reflexivity|].
+  specialize (H b a (c + 1) Hd). destruct (rec b a (c + 1)) as [[[[bs c2] b'] d1]| | |]; cbn [bind]; auto.
   assert (Hd' : (depth b' < d)%nat) by (rewrite H; exact Hd).
-  specialize (IH b' (a + Zlen bs) Hd'). destruct (loop rec k b' (a + Zlen bs)) as [[[bs2 b''] d2]| | |]; cbn [bind]; auto.
+  specialize (IH b' (a + Zlen bs) c2 Hd'). destruct (loop budget rec k b' (a + Zlen bs) c2) as [[[[bs2 c3] b''] d2]| | |]; cbn [bind]; auto.
   congruence.
 Qed.
 
 Lemma depth_cons i r : depth (i :: r) = Nat.max (depth_item i) (depth r).
 Proof. reflexivity. Qed.
 
-Lemma item_fuel rec env d : fuel_ok rec d -> forall it a, (depth_item it <= d)%nat ->
-  match compile_item rec env a it with OutOfFuel => False | Ok (_, it', _) => depth_item it' = depth_item it | _ => True end.
+Lemma item_fuel budget rec env d : fuel_ok rec d -> forall it a c, (depth_item it <= d)%nat ->
+  match compile_item budget rec env a c it with OutOfFuel => False | Ok (_, it', _) => depth_item it' = depth_item it | _ => True end.
 Proof.
-  intros H it a Hd. destruct it; cbn [compile_item].
+  intros H it a c Hd. destruct it; cbn [compile_item].
   - pose proof (cook_nf (Some 16) false env a ops) as C. destruct (cook (Some 16) false env a ops) as [[[ws ops'] d1]| | |]; cbn [bind]; auto.
     destruct ws; reflexivity.
   - pose proof (cook_nf (Some 8) false env a ops) as C. destruct (cook (Some 8) false env a ops) as [[[ws ops'] d1]| | |]; cbn [bind]; auto.
@@ -1561,39 +1562,39 @@ Proof.
   - pose proof (cook_nf None true env a [cnt]) as C. destruct (cook None true env a [cnt]) as [[[ws cnt'] d1]| | |]; cbn [bind]; auto.
     assert (Hb : (depth body < d)%nat) by (simpl in Hd; fold (depth body) in Hd; exact Hd).
     destruct ws as [[|n [|x r]]|]; try reflexivity.
-    pose proof (loop_fuel rec d H (Z.to_nat n) body a Hb) as L.
-    destruct (loop rec (Z.to_nat n) body a) as [[[bs body'] d2]| | |]; cbn [bind]; auto.
+    pose proof (loop_fuel budget rec d H (Z.to_nat n) body a c Hb) as L.
+    destruct (loop budget rec (Z.to_nat n) body a c) as [[[bsc body'] d2]| | |]; cbn [bind]; auto.
     simpl. fold (depth body'). fold (depth body). congruence.
   - reflexivity.
 Qed.
 
-Lemma block_fuel rec env d : fuel_ok rec d -> fuel_ok (block rec env) (S d).
+Lemma block_fuel budget rec env d : fuel_ok rec d -> fuel_ok (block budget rec env) (S d).
 Proof.
-  intros H b. induction b as [|i r IH]; intros a Hd; [reflexivity|].
+  intros H b. induction b as [|i r IH]; intros a c Hd; [reflexivity|].
   rewrite depth_cons in Hd.
   assert (Hi : (depth_item i <= d)%nat) by (apply Nat.lt_succ_r; eapply Nat.le_lt_trans; [apply Nat.le_max_l | exact Hd]).
   assert (Hr : (depth r < S d)%nat) by (eapply Nat.le_lt_trans; [apply Nat.le_max_r | exact Hd]).
-  assert (Step : match (do x <- compile_item rec env a i; let '(bs, it', d0) := x in
-                        do y <- block rec env r (a + Zlen bs); let '(bs2, rest', d2) := y in
-                        Ok (bs ++ bs2, it' :: rest', d0 ++ d2))
+  assert (Step : match (do x <- compile_item budget rec env a c i; let '((bs, c1), it', d0) := x in
+                        do y <- block budget rec env r (a + Zlen bs) c1; let '((bs2, c2), rest', d2) := y in
+                        Ok ((bs ++ bs2, c2), it' :: rest', d0 ++ d2))
                  with OutOfFuel => False | Ok (_, b', _) => depth b' = depth (i :: r) | _ => True end).
-  { pose proof (item_fuel rec env d H i a Hi) as I. destruct (compile_item rec env a i) as [[[bs it'] d0]| | |]; cbn [bind]; auto.
-    specialize (IH (a + Zlen bs) Hr). destruct (block rec env r (a + Zlen bs)) as [[[bs2 r'] d2]| | |]; cbn [bind]; auto.
+  { pose proof (item_fuel budget rec env d H i a c Hi) as I. destruct (compile_item budget rec env a c i) as [[[[bs c1] it'] d0]| | |]; cbn [bind]; auto.
+    specialize (IH (a + Zlen bs) c1 Hr). destruct (block budget rec env r (a + Zlen bs) c1) as [[[[bs2 c2] r'] d2]| | |]; cbn [bind]; auto.
     rewrite !depth_cons. congruence. }
   destruct i; try exact Step. reflexivity.
 Qed.
 
-Lemma compile_block_fuel env : forall f, fuel_ok (compile_block f env) f.
+Lemma compile_block_fuel budget env : forall f, fuel_ok (compile_block budget f env) f.
 Proof.
   induction f as [|f IH].
-  - intros b a Hd. inversion Hd.
+  - intros b a c Hd. inversion Hd.
   - cbn [compile_block]. apply block_fuel. exact IH.
 Qed.
 
 (* fuel_sufficient: with fuel S f and a body nested at most f deep, neither side of repeat_unroll
    is the out-of-fuel outcome *)
 Lemma outcome_fuel r : outcome_of r = OFuel -> r = OutOfFuel.
-Proof. destruct r as [[[bs b] [|x d]]| | |]; simpl; intros H; try discriminate; reflexivity. Qed.
+Proof. destruct r as [[[[bs c] b] [|x d]]| | |]; simpl; intros H; try discriminate; reflexivity. Qed.
 
 Lemma depth_app x : forall y, depth (x ++ y) = Nat.max (depth x) (depth y).
 Proof.
@@ -1607,13 +1608,13 @@ Proof.
   rewrite depth_app. apply Nat.max_lub; [apply Nat.le_refl | exact IH].
 Qed.
 
-Lemma fuel_sufficient f env n body a : (depth body <= f)%nat ->
-  outcome_of (repeat_model (S f) env n body a) <> OFuel /\ outcome_of (unrolled (S f) env n body a) <> OFuel.
+Lemma fuel_sufficient budget f env n body a c : (depth body <= f)%nat ->
+  outcome_of (repeat_model budget (S f) env n body a c) <> OFuel /\ outcome_of (unrolled budget (S f) env n body a c) <> OFuel.
 Proof.
   intros Hd. split; intros H; apply outcome_fuel in H.
-  - pose proof (loop_fuel _ (S f) (compile_block_fuel env (S f)) n body a (proj2 (Nat.lt_succ_r _ _) Hd)) as L.
+  - pose proof (loop_fuel budget _ (S f) (compile_block_fuel budget env (S f)) n body a c (proj2 (Nat.lt_succ_r _ _) Hd)) as L.
     unfold repeat_model in H. rewrite H in L. exact L.
-  - pose proof (compile_block_fuel env (S f) (written_out n body) a) as L.
+  - pose proof (compile_block_fuel budget env (S f) (written_out n body) a c) as L.
     unfold unrolled in H. rewrite H in L. apply L.
     apply Nat.lt_succ_r. eapply Nat.le_trans; [apply depth_written_out | exact Hd].
 Qed.
